@@ -189,7 +189,20 @@ func buildInlinedOverlay(repo string, known map[string]bool, maxRounds int) (map
 							return true
 						}
 						if _, isIdent := n.X.(*ast.Ident); !isIdent {
-							return true
+							// or a composite literal of plain identifiers (an adapter value built on the spot)
+							cl, isLit := n.X.(*ast.CompositeLit)
+							if !isLit {
+								return true
+							}
+							for _, el := range cl.Elts {
+								v := el
+								if kv, isKV := el.(*ast.KeyValueExpr); isKV {
+									v = kv.Value
+								}
+								if _, isId := v.(*ast.Ident); !isId {
+									return true
+								}
+							}
 						}
 						txt, ok := wrapMethodValue(pkg, f, n, callee, src)
 						if !ok {
@@ -304,6 +317,26 @@ func buildInlinedOverlay(repo string, known map[string]bool, maxRounds int) (map
 			}
 		}
 	}
+	// Local variables of struct types the change introduced (result structs, adapter types) are split into
+	// one variable per field, so that the rules see the locals those structs replaced.
+	if len(steps) > 0 && knownTypesRef != nil {
+		before := map[string][]byte{}
+		for k, v := range overlay {
+			before[k] = v
+		}
+		if n, err := sroaOverlay(abs, overlay, knownTypesRef); err == nil && n > 0 {
+			if err := typeCheckOverlay(abs, overlay); err != nil {
+				if os.Getenv("SFCHECK_DEBUG_SROA") != "" {
+					fmt.Fprintln(os.Stderr, "sroa: undone:", err)
+				}
+				for k, v := range before {
+					overlay[k] = v
+				}
+			} else {
+				steps = append(steps, inlineStep{Callee: fmt.Sprintf("%d local struct variable(s)", n), Caller: "per-field variables", Kind: "scalar-replacement"})
+			}
+		}
+	}
 	// Finally remove the declarations of new functions that are no longer referenced.
 	if len(steps) > 0 {
 		if err := dropUnusedNewDecls(abs, overlay, known); err != nil {
@@ -313,6 +346,10 @@ func buildInlinedOverlay(repo string, known map[string]bool, maxRounds int) (map
 	sort.SliceStable(steps, func(i, j int) bool { return steps[i].File < steps[j].File })
 	return overlay, steps, nil
 }
+
+// knownTypesRef: "rel.TypeName" of the named types of the reference tree (expect_types.json); nil disables the
+// scalar-replacement pass.
+var knownTypesRef map[string]bool
 
 func parserParse(fset *token.FileSet, name string, src []byte) (*ast.File, error) {
 	return parser.ParseFile(fset, name, src, parser.ParseComments)
@@ -639,6 +676,38 @@ func importName(imp *ast.ImportSpec) string {
 
 // dumpFunctions lists "rel.declName" for every top-level function and method
 // of the repository's non-test packages: the reference list of expect_functions.json.
+// dumpTypeNames lists "rel.TypeName" for every named type declared at package level in the repository.
+func dumpTypeNames(repo string) ([]string, error) {
+	abs, err := filepath.Abs(repo)
+	if err != nil {
+		return nil, err
+	}
+	cfg := &packages.Config{
+		Mode:  packages.NeedName | packages.NeedTypes | packages.NeedImports | packages.NeedDeps,
+		Dir:   abs,
+		Env:   loadEnv(),
+		Tests: false,
+	}
+	pkgs, err := packages.Load(cfg, "./...")
+	if err != nil {
+		return nil, err
+	}
+	var out []string
+	for _, pkg := range pkgs {
+		if !strings.HasPrefix(pkg.PkgPath, modPath) || pkg.Types == nil {
+			continue
+		}
+		rel := strings.TrimPrefix(strings.TrimPrefix(pkg.PkgPath, modPath), "/")
+		for _, n := range pkg.Types.Scope().Names() {
+			if _, ok := pkg.Types.Scope().Lookup(n).(*types.TypeName); ok {
+				out = append(out, rel+"."+n)
+			}
+		}
+	}
+	sort.Strings(out)
+	return out, nil
+}
+
 func dumpFunctions(repo string) ([]string, error) {
 	abs, err := filepath.Abs(repo)
 	if err != nil {
@@ -774,6 +843,11 @@ func flattenOne(fset *token.FileSet, f *ast.File, src []byte, ctr *int) ([]byte,
 			call, _ = x.X.(*ast.CallExpr)
 			kind = "expr"
 		case *ast.DeclStmt:
+			// var f func(..) = func(..) {...} used only in calls f(..): put the literal where it is called
+			if txt, ok := substFuncVar(fset, f, x, src); ok {
+				result = txt
+				return true
+			}
 			// var x T = func() T {...}()
 			if gd, ok := x.Decl.(*ast.GenDecl); ok && gd.Tok == token.VAR && len(gd.Specs) == 1 {
 				if vs, ok := gd.Specs[0].(*ast.ValueSpec); ok && len(vs.Values) == 1 {
@@ -839,12 +913,50 @@ func flattenOne(fset *token.FileSet, f *ast.File, src []byte, ctr *int) ([]byte,
 				}
 			}
 		}
-		if call == nil || len(call.Args) != 0 {
+		if call == nil {
 			return false
 		}
-		lit, ok := call.Fun.(*ast.FuncLit)
-		if !ok || (lit.Type.Params != nil && len(lit.Type.Params.List) > 0) {
+		fun := call.Fun
+		for {
+			pe, isP := fun.(*ast.ParenExpr)
+			if !isP {
+				break
+			}
+			fun = pe.X
+		}
+		lit, ok := fun.(*ast.FuncLit)
+		if !ok || call.Ellipsis.IsValid() {
 			return false
+		}
+		// parameters of the literal become variables of the block, initialised with the arguments in order
+		prelude := ""
+		{
+			var pnames, ptypes []string
+			if lit.Type.Params != nil {
+				for _, fld := range lit.Type.Params.List {
+					if _, variadic := fld.Type.(*ast.Ellipsis); variadic {
+						return false
+					}
+					if len(fld.Names) == 0 {
+						pnames = append(pnames, "_")
+						ptypes = append(ptypes, text(fld.Type))
+					}
+					for _, nm := range fld.Names {
+						pnames = append(pnames, nm.Name)
+						ptypes = append(ptypes, text(fld.Type))
+					}
+				}
+			}
+			if len(pnames) != len(call.Args) {
+				return false
+			}
+			for i := range pnames {
+				if pnames[i] == "_" {
+					prelude += "var _ " + ptypes[i] + " = " + text(call.Args[i]) + "\n"
+				} else {
+					prelude += "var " + pnames[i] + " " + ptypes[i] + " = " + text(call.Args[i]) + "\n_ = " + pnames[i] + "\n"
+				}
+			}
 		}
 		// A result-less literal called as the last statement of a result-less function body is that
 		// body's tail: its statements (defers and returns included) can simply take its place.
@@ -863,7 +975,7 @@ func flattenOne(fset *token.FileSet, f *ast.File, src []byte, ctr *int) ([]byte,
 				bodyEnd := fset.Position(lit.Body.Rbrace).Offset
 				a := fset.Position(s.Pos()).Offset
 				b := fset.Position(s.End()).Offset
-				result = append(append(append([]byte{}, src[:a]...), src[bodyStart:bodyEnd]...), src[b:]...)
+				result = append(append(append(append([]byte{}, src[:a]...), prelude...), src[bodyStart:bodyEnd]...), src[b:]...)
 				return true
 			}
 		}
@@ -1013,6 +1125,7 @@ func flattenOne(fset *token.FileSet, f *ast.File, src []byte, ctr *int) ([]byte,
 			}
 		}
 		sb.WriteString("{\n")
+		sb.WriteString(prelude)
 		if named {
 			for i := 0; i < nres; i++ {
 				if rnames[i] != "" && rnames[i] != "_" {
@@ -1257,6 +1370,75 @@ func pureExpr(e ast.Expr) bool {
 		return x.Op != token.ARROW && pureExpr(x.X)
 	}
 	return false
+}
+
+// substFuncVar: decl is "var f T = func(...) {...}" and every other occurrence of
+// the identifier f in the enclosing function is the callee of a call f(...); f is
+// declared nowhere else in that function. The declaration is dropped and each
+// call gets the literal itself as callee. (The literal captures by reference, so
+// evaluating it at the call instead of at the declaration is the same closure.)
+func substFuncVar(fset *token.FileSet, file *ast.File, decl *ast.DeclStmt, src []byte) ([]byte, bool) {
+	gd, ok := decl.Decl.(*ast.GenDecl)
+	if !ok || gd.Tok != token.VAR || len(gd.Specs) != 1 {
+		return nil, false
+	}
+	vs, ok := gd.Specs[0].(*ast.ValueSpec)
+	if !ok || len(vs.Names) != 1 || len(vs.Values) != 1 {
+		return nil, false
+	}
+	lit, ok := vs.Values[0].(*ast.FuncLit)
+	if !ok {
+		return nil, false
+	}
+	name := vs.Names[0].Name
+	// the enclosing function declaration
+	var encl *ast.FuncDecl
+	for _, d := range file.Decls {
+		if fd, okf := d.(*ast.FuncDecl); okf && fd.Body != nil && fd.Pos() <= decl.Pos() && decl.End() <= fd.End() {
+			encl = fd
+		}
+	}
+	if encl == nil {
+		return nil, false
+	}
+	type edit struct {
+		a, b int
+		txt  string
+	}
+	var edits []edit
+	okAll := true
+	callees := map[*ast.Ident]bool{}
+	ast.Inspect(encl.Body, func(n ast.Node) bool {
+		if c, isCall := n.(*ast.CallExpr); isCall {
+			if id, isId := c.Fun.(*ast.Ident); isId && id.Name == name {
+				callees[id] = true
+			}
+		}
+		return true
+	})
+	litTxt := string(src[fset.Position(lit.Pos()).Offset:fset.Position(lit.End()).Offset])
+	ast.Inspect(encl, func(n ast.Node) bool {
+		id, isId := n.(*ast.Ident)
+		if !isId || id.Name != name || id == vs.Names[0] {
+			return true
+		}
+		if !callees[id] || (id.Pos() >= lit.Pos() && id.End() <= lit.End()) || id.Pos() < decl.End() {
+			okAll = false // another use, a recursive use, or another declaration of the name
+			return true
+		}
+		edits = append(edits, edit{fset.Position(id.Pos()).Offset, fset.Position(id.End()).Offset, "(" + litTxt + ")"})
+		return true
+	})
+	if !okAll || len(edits) == 0 {
+		return nil, false
+	}
+	edits = append(edits, edit{fset.Position(decl.Pos()).Offset, fset.Position(decl.End()).Offset, ""})
+	sort.Slice(edits, func(i, j int) bool { return edits[i].a > edits[j].a })
+	out := append([]byte{}, src...)
+	for _, e := range edits {
+		out = append(append(append([]byte{}, out[:e.a]...), e.txt...), out[e.b:]...)
+	}
+	return out, true
 }
 
 // wrappedLitCall: e is a call of a parameterless function literal wrapped in
